@@ -112,6 +112,15 @@ def defects(d):
     emit("unit-ident-is-a-string", a=replace(first_unit, '#[unit("%s", "s"%s)]' % (u0["id"], lit)))
     emit("unit-empty-arg-list", a=replace(first_unit, "#[unit()]"))
     emit("unit-name-value-form", a=replace(first_unit, '#[unit = "%s"]' % u0["id"]))
+    if d.get("ref"):
+        emit("unit-scale-before-prefix", a=replace(first_unit, '#[unit(%s, "s", 0.5, KILO)]' % u0["id"]))
+        # (a negative scale literal such as -0.5 is ACCEPTED by the macro; it is a numeric literal of the right kind, no
+        #  clause of the statement calls it malformed, so it is not a defect form here - DESIGN.md 9.3)
+        emit("unit-two-scales", a=replace(first_unit, '#[unit(%s, "s", 0.5, 2)]' % u0["id"]))
+        emit("unit-doc-before-scale", a=replace(first_unit, '#[unit(%s, "s", "doc", 0.5)]' % u0["id"]))
+    emit("unit-missing-comma", a=replace(first_unit, '#[unit(%s "s")]' % u0["id"]))
+    emit("unit-two-symbols", a=replace(first_unit, '#[unit(%s, "s", "doc", "extra")]' % u0["id"]))
+    emit("duplicate-unit-identifier", a=attrs + [attrs[first_unit]])
     emit("unit-scale-is-a-string", a=replace(first_unit, '#[unit(%s, "s", "0.5", "doc", 7)]' % u0["id"]))
     # 9 struct fields, 10 generic parameters, 11 non-struct items
     emit("struct-with-named-field", it="pub struct %s { x: i32 }" % d["name"])
